@@ -41,6 +41,12 @@ def instances(tier):
                     graphs.append({"name": f"G{i}", "tasks": [tn], "edges": []})
                 inst = {"now": 2, "workers": ws, "graphs": graphs, "tasks": tasks}
                 out.append({"name": f"indep-{kind}-{opts.get('goal', '')}-d{opts.get('time_discretization', '')}-w{''.join(map(str, ws))}-n{nt}", "kind": kind, "opts": opts, "inst": inst})
+        # workers that own different resource types (a CPU-only and a GPU-only worker); every task offers a slow CPU and a fast GPU strategy,
+        # and only the GPU strategy meets the deadline: nothing may end up on a worker that lacks the resource type it needs
+        if kind in ("ILP", "TSG", "TSC"):
+            tasks = {f"T{i}": {"strategies": [[8, {"CPU": 1}], [3, {"GPU": 1}]], "deadline": 7, "state": "RELEASED", "release": 0} for i in range(2)}
+            inst = {"now": 1, "workers": [{"CPU": 1}, {"GPU": 1}], "graphs": [{"name": f"G{i}", "tasks": [f"T{i}"], "edges": []} for i in range(2)], "tasks": tasks}
+            out.append({"name": f"cpu-worker+gpu-worker-{kind}-{opts.get('goal', '')}-d{opts.get('time_discretization', '')}", "kind": kind, "opts": opts, "inst": inst})
         # a chain whose child carries its own (later) release time, offered through the lookahead
         tasks = {"A": {"strategies": [[3, 1]], "deadline": 30, "state": "RELEASED", "release": 0}, "B": {"strategies": [[3, 1]], "deadline": 30, "release": 9}}
         inst = {"now": 1, "workers": [2], "graphs": [{"name": "G", "tasks": ["A", "B"], "edges": [["A", "B"]]}], "tasks": tasks}
@@ -195,9 +201,11 @@ def check_instance(spec):
                 else:
                     res["errors"].append(f"time-bound counterexample for {tn} not reproduced ({st}, {real})")
     # ---- capacity over all solutions: at the start instant of every cell
+    all_resources = sorted({rn for (_, _, c_) in I.workers for rn in c_} | {rn for p_ in P.values() for (_, dem_) in p_["strategies"] for rn in dem_})
     for wpos, (pi, wk, caps) in enumerate(I.workers):
         mine = [c for c in cells if c[1] == wpos]
-        for rn, cap in caps.items():
+        for rn in all_resources:  # also the resource types this worker does not own at all (capacity 0)
+            cap = caps.get(rn, 0)
             for (tn, _, st_i, rt_i, dem_i, term_i, prev_i) in mine:
                 if prev_i:
                     continue
